@@ -47,9 +47,9 @@ class Ctx:
             for package, target, feats in parts:
                 (mir, cl), dt = build.dump_mir(feats, package, target)
                 self.mir_s += dt; texts.append(mir); closures.update(cl)
-            from mirse import models_ng, models_chan, models_misc, models_bio
+            from mirse import models_ng, models_chan, models_misc, models_bio, models_cli
             eng = runner.make_engine(('\n'.join(texts), closures), build.REPO, features=build.closure(features), src_globs=src_globs,
-                                     extra_models=(models_ng, models_chan, models_misc, models_bio))
+                                     extra_models=(models_ng, models_chan, models_misc, models_bio, models_cli))
             runner.register_engine(key, eng)
             self.engines[key] = eng
         return key
